@@ -172,3 +172,7 @@ PROPS["C15"]["kinds"] = ["cli"]
 for _p in ("C09", "C10", "C16", "C18"):
     PROPS[_p]["trusted_base"] = PROPS[_p].get("trusted_base", []) + CLI_TB
     PROPS[_p]["rule"] = PROPS[_p]["rule"] + " cli: " + CLI_RULE
+
+PROPS["C04"]["site_coverage"] = True
+PROPS["C04"]["kinds"] = ["conv", "c03", "c19", "c12", "reply"]
+PROPS["C04"]["trusted_base"] = PROPS["C04"]["trusted_base"] + ["tools/replysites (go/ast): reads every writeResponse/protocolError/writeError call, dataErrorToStatus return and SMTPError literal out of /repo, and the reply literals of Conn.v/Reply.v by a regular expression; coq/gen/ReplySites.v is regenerated on every run"]
